@@ -538,3 +538,102 @@ func fnSet(m map[*ssa.Function][]Access) map[*ssa.Function]bool {
 	}
 	return res
 }
+
+// inPlaceRoutines: library functions that modify the backing array of their first argument.
+var inPlaceRoutines = map[string]map[string]bool{
+	"slices": {"Delete": true, "DeleteFunc": true, "Insert": true, "Replace": true, "Compact": true, "CompactFunc": true, "Reverse": true, "Sort": true, "SortFunc": true, "SortStableFunc": true},
+	"sort":   {"Slice": true, "SliceStable": true, "Sort": true, "Stable": true, "Strings": true, "Ints": true},
+}
+
+// escapedListsImmutable: a list field whose slice header is handed out by a
+// getter (callers iterate it without the lock) is copy-on-write: nobody stores
+// into its elements or applies an in-place routine to it. Removal and filtering
+// build a new slice.
+func escapedListsImmutable(p *Prog, ls *Lockset, r *Report, rule string, onlyOwners map[string]bool) {
+	n := 0
+	for _, key := range sortedKeys(ls.Accesses) {
+		owner := strings.SplitN(key, ".", 2)[0]
+		if onlyOwners != nil && !onlyOwners[owner] {
+			continue
+		}
+		var esc *Access
+		var fld *types.Var
+		for i, a := range ls.Accesses[key] {
+			handedOut := a.Kind == "ESC"
+			if v, ok := a.Ins.(ssa.Value); ok && flowsToReturn(v) {
+				handedOut = true
+			}
+			if handedOut {
+				esc = &ls.Accesses[key][i]
+				fld = a.Field
+			}
+		}
+		if esc == nil || fld == nil {
+			continue
+		}
+		if _, isSl := fld.Type().Underlying().(*types.Slice); !isSl {
+			continue
+		}
+		n++
+		bad := 0
+		for _, fn := range ls.fns {
+			if isWrapper(fn) {
+				continue
+			}
+			for _, b := range fn.Blocks {
+				for _, ins := range b.Instrs {
+					switch x := ins.(type) {
+					case *ssa.Store:
+						if ia, ok := x.Addr.(*ssa.IndexAddr); ok && loadsField(ia.X, fld) {
+							bad++
+							r.Fail(rule, fmt.Sprintf("field:%s|fn:%s|element-store", key, FnName(originOf(fn))), p.InstrPos(x), fmt.Sprintf("an element of %s is overwritten in place, but %s hands the slice header out to callers that iterate it without the lock", key, FnName(esc.Fn)))
+						}
+					case *ssa.Call:
+						callee := x.Call.StaticCallee()
+						if callee == nil {
+							if builtinName(&x.Call) == "copy" && len(x.Call.Args) == 2 && loadsField(x.Call.Args[0], fld) {
+								bad++
+								r.Fail(rule, fmt.Sprintf("field:%s|fn:%s|copy-into", key, FnName(originOf(fn))), p.InstrPos(x), fmt.Sprintf("copy writes into the backing array of %s, which %s hands out", key, FnName(esc.Fn)))
+							}
+							continue
+						}
+						if set := inPlaceRoutines[fnPkgPath(callee)]; set != nil && set[originName(callee)] && len(x.Call.Args) > 0 && loadsField(x.Call.Args[0], fld) {
+							bad++
+							r.Fail(rule, fmt.Sprintf("field:%s|fn:%s|%s.%s", key, FnName(originOf(fn)), fnPkgPath(callee), originName(callee)), p.InstrPos(x), fmt.Sprintf("%s.%s works in place on the backing array of %s, but %s hands the slice header out to callers that iterate it without the lock: a concurrent reader sees shifted or zeroed elements", fnPkgPath(callee), originName(callee), key, FnName(esc.Fn)))
+						}
+					}
+				}
+			}
+		}
+		if bad == 0 {
+			r.Pass(rule, "field:"+key, p.InstrPos(esc.Ins), fmt.Sprintf("handed out by %s; never modified in place", FnName(esc.Fn)))
+		}
+	}
+	r.Floor(rule, "list fields handed out by a getter", n, 1)
+}
+
+// flowsToReturn: v is returned, directly or through the result cell of a function with defer.
+func flowsToReturn(v ssa.Value) bool {
+	if v.Referrers() == nil {
+		return false
+	}
+	for _, ref := range *v.Referrers() {
+		switch x := ref.(type) {
+		case *ssa.Return:
+			return true
+		case *ssa.Store:
+			if al, ok := x.Addr.(*ssa.Alloc); ok && x.Val == v && al.Referrers() != nil {
+				for _, r2 := range *al.Referrers() {
+					if ld, ok := r2.(*ssa.UnOp); ok && ld.Referrers() != nil {
+						for _, r3 := range *ld.Referrers() {
+							if _, isRet := r3.(*ssa.Return); isRet {
+								return true
+							}
+						}
+					}
+				}
+			}
+		}
+	}
+	return false
+}
